@@ -1,5 +1,6 @@
 //! zv — harness front door: translator (`extract`), tree dump (`dump`), real-library runs (`gen`, ...).
 mod dump;
+mod extract_cli;
 mod extract_restr;
 mod extract_send;
 mod extract_sites;
@@ -30,6 +31,11 @@ fn cmd_extract(repo: &str, out: &str) -> ExitCode {
     let mut changed = vec![];
     if write_if_changed(&out.join("Restrictions.lean"), &extract_restr::extract(&helpers)) {
         changed.push("Restrictions.lean");
+    }
+    let main_src = fs::read_to_string(repo.join("zeep/src/main.rs")).unwrap_or_default();
+    let utils_src = fs::read_to_string(repo.join("zeep-lib/src/utils.rs")).unwrap_or_default();
+    if write_if_changed(&out.join("Cli.lean"), &extract_cli::extract(&main_src, &utils_src)) {
+        changed.push("Cli.lean");
     }
     if write_if_changed(&out.join("Send.lean"), &extract_send::extract(&helpers)) {
         changed.push("Send.lean");
